@@ -56,6 +56,7 @@ def step (line : String) : String :=
   | ["encsel", o, h, e, p] => ImportOps.opEncSel o h e p
   | ["fetchout", fx, k] => ImportOps.opFetchOut fx k
   | ["urlpath", b, r] => ImportOps.opUrlPath b r
+  | ["rfcpath", m] => ImportOps.opRfcPath m
   | ["sel", ns, hex] => SelOps.opSel ns hex
   | ["num", fx, om, hex] => NumOps.opNum fx om hex
   | ["numval", hex] => NumOps.opVal hex
